@@ -1629,6 +1629,7 @@ fn main() {
     let mut shapes: Vec<String> = vec![];
     let mut extracted_sites: Vec<String> = vec![];
     let mut stubbed: Vec<String> = vec![];
+    let mut new_lock_sites: Vec<String> = vec![];
 
     let mut ln = 0usize;
     while ln < lines.len() {
@@ -2106,6 +2107,26 @@ fn main() {
                 if found.len() == 1 {
                     let (s0, e0) = src.range(found[0].block.span());
                     extracted_sites.push(format!("{}:{}:{}", spec.file, s0, e0));
+                    // ... except for lock sites on a structure this function's contract knows nothing about (no lock rule for the receiver):
+                    // a function that starts taking a lock it did not take when its contract was written is a NEW, unverified critical
+                    // section on that structure; the units that reason about that lock lose their rely condition (S-cover)
+                    struct Locks<'s> { src: &'s SourceFile, out: Vec<(usize, String)> }
+                    impl<'s, 'ast> Visit<'ast> for Locks<'s> {
+                        fn visit_expr_method_call(&mut self, m: &'ast syn::ExprMethodCall) {
+                            if (m.method == "lock" || m.method == "try_lock") && m.args.is_empty() {
+                                let (ms, _) = self.src.range(m.method.span());
+                                self.out.push((ms, recv_key(&m.receiver)));
+                            }
+                            visit::visit_expr_method_call(self, m);
+                        }
+                    }
+                    let mut lk = Locks { src, out: vec![] };
+                    lk.visit_block(found[0].block);
+                    for (off, key) in lk.out {
+                        if !spec.rules.lock.contains_key(&key) {
+                            new_lock_sites.push(format!("{}:{} ({} in {})\t{}", spec.file, src.line_of(off), key, spec.func, key));
+                        }
+                    }
                 }
             }
         } else {
@@ -2139,6 +2160,11 @@ fn main() {
     for (i, b) in extracted_sites.iter().enumerate() {
         if i > 0 { j.push(','); }
         let _ = write!(j, "\"{}\"", b);
+    }
+    j.push_str("],\n \"new_lock_sites\": [");
+    for (i, b) in new_lock_sites.iter().enumerate() {
+        if i > 0 { j.push(','); }
+        let _ = write!(j, "\"{}\"", b.replace('\\', "\\\\").replace('"', "\\\"").replace('\t', "\\t"));
     }
     j.push_str("],\n \"stubbed\": [");
     for (i, b) in stubbed.iter().enumerate() {
